@@ -56,6 +56,7 @@ type c20Report struct {
 	Sample        interface{}    `json:"sample"`
 	Overlaps      int            `json:"histories_with_overlapping_ops"`
 	TwoFailers    int            `json:"deliveries_failed_by_two_publishers_on_one_subscriber"`
+	FailedChecked int            `json:"failed_deliveries_checked_for_removal"`
 	UnsubDuringPh int            `json:"unsubscribe_overlapping_a_failing_publish"`
 }
 
@@ -206,6 +207,10 @@ func c20Child(args []string) int {
 					}
 					if scenario == 2 && ci == 0 && k == 0 {
 						p.topic, p.fails = "*", []int{0, 1, 2}
+					} else if scenario == 3 && ci < 3 && k == 0 {
+						// several subscribers that fail in the same publish, registered one after the other, on topics that ONE
+						// unsubscribe call does not all match: that call can take the first of them away between the two phases
+						p.topic, p.fails = []string{"*", "a", "b"}[ci], []int{0, 1}
 					} else if r.Intn(5) == 0 {
 						p.also = topics[r.Intn(len(topics))]
 						p.refuse = r.Intn(4) == 0
@@ -220,6 +225,9 @@ func c20Child(args []string) int {
 					}
 				default:
 					p.kind = "unsubscribe"
+					if scenario == 3 && r.Intn(2) == 0 {
+						p.topic = "*" // matches only the subscribers of every topic
+					}
 				}
 				plans[ci] = append(plans[ci], p)
 				total++
@@ -453,6 +461,28 @@ func c20Child(args []string) int {
 				viol("spurious-cleanup", fmt.Sprintf("subscriber %d was cleaned up without an unsubscribe or failed delivery", sid), nil)
 			}
 		}
+		// (7) a subscriber whose delivery failed is gone when the publish that failed on it has returned: its clean-up was
+		// called (once, by whoever removed it - that publish, another publish or an unsubscribe; all of them work under the
+		// registry lock) and nothing reaches it afterwards
+		for _, p := range all {
+			if p.Kind != "publish" {
+				continue
+			}
+			for _, sid := range perEvent[p.Event] {
+				if !failsBy[[2]int64{p.Event, int64(sid)}] {
+					continue
+				}
+				rep.FailedChecked++
+				if st := cleanups[sid]; len(st) == 0 || st[0] > p.Ret {
+					viol("failed-subscriber-kept", fmt.Sprintf("delivery of e%d to subscriber %d failed; when that publish had returned (stamp %d) the subscriber's clean-up had not been called (clean-ups %v)", p.Event, sid, p.Ret, st), nil)
+				}
+				for _, d := range dels {
+					if d.Sub == sid && d.Stamp > p.Ret {
+						viol("delivery-after-failed-delivery", fmt.Sprintf("subscriber %d received e%d (stamp %d) after the publish of e%d that failed on it had returned (stamp %d)", sid, d.Event, d.Stamp, p.Event, p.Ret), nil)
+					}
+				}
+			}
+		}
 		// (4) an event published after a subscription returned (and finished before anything could remove the subscriber) reaches it
 		for _, p := range all {
 			if p.Kind != "publish" {
@@ -658,6 +688,7 @@ func runC20(c *run.Ctx) {
 		tot.Signatures += r.Signatures
 		tot.Overlaps += r.Overlaps
 		tot.TwoFailers += r.TwoFailers
+		tot.FailedChecked += r.FailedChecked
 		tot.UnsubDuringPh += r.UnsubDuringPh
 		for s, n := range r.Hits {
 			hits[s] += n
@@ -695,6 +726,7 @@ func runC20(c *run.Ctx) {
 	c.Set("histories_with_failing_subscribers", tot.WithFailures)
 	c.Set("subscription_requests_opening_two_streams", tot.Doubles)
 	c.Set("subscribers_failed_on_by_two_or_more_deliveries", tot.TwoFailers)
+	c.Set("failed_deliveries_checked_for_removal_by_the_end_of_their_publish", tot.FailedChecked)
 	c.Set("unsubscribes_overlapping_a_failing_publish", tot.UnsubDuringPh)
 	c.Set("hook_hits_per_site", hits)
 	c.Set("distinct_interleaving_signatures", tot.Signatures)
